@@ -639,6 +639,7 @@ func c10vapiFaults(r *enumx.Run, s *c10vseq) {
 
 func c10vapiExtra(ctx context.Context, r *enumx.Run, h *c10vapi) {
 	s := c10newVseq(ctx, h)
+	c10vapiPairs(r, h) // two entries of one request that are invalid together (zz_verif_c10p_test.go)
 	c10vapiSequences(r, s)
 	c10vapiFaults(r, s)
 }
@@ -653,6 +654,8 @@ func c10vapiReplayExtra(ctx context.Context, r *enumx.Run, h *c10vapi, c c10case
 		if op, err := s.base(c.Unit + "|" + c.Alt); err == nil {
 			s.evalFault(r, &c10fc{Client: h.cl.bmock}, op, c)
 		}
+	case "vapi-pair":
+		c10vapiPairReplay(r, h, c)
 	default:
 		return false
 	}
